@@ -2,9 +2,9 @@
 from corr import disp_family
 from oracles import c19 as oracle
 
-GEN = ["Units"]
-LEAN_TARGETS = ["MagpyVerif.Props.C19"]
-PROPS = ["MagpyVerif.Props.C19"]
+GEN = ["Units", "StyleTemp"]
+LEAN_TARGETS = ["MagpyVerif.Props.C19", "MagpyVerif.Props.C20b"]
+PROPS = ["MagpyVerif.Props.C19", "MagpyVerif.Props.C20b"]  # C20b: style_temp_edit_restores (displaying never modifies the objects, also when it fails)
 
 
 def run(ctx, model_ok):
